@@ -4,7 +4,7 @@ import ast
 from ..astutil import (AnalysisError, dotted, calls_in, last_attr, receiver, norm, is_name, walk_local, is_self_attr,
                        loc, short, parent_map)
 from ..cfg import is_flow, path_str
-from .c07 import pool_parts, call_nodes
+from .c07 import pool_parts, call_nodes, pool_names
 
 EXPLANATION = (
     'Static decision of the failure reporting of Pool.run. R1: the only `raise PoolError` of run is dominated by `not ok`, '
@@ -21,6 +21,10 @@ TECHNIQUE = 'dominance + path analysis of the Pool.run closures'
 def run(ctx):
     pool, run_f, cl = pool_parts(ctx)
     te = cl['try_enqueue']
+    N = pool_names(run_f, cl)
+    for k in ('ok', 'ret', 'inp'):
+        ctx.require(k in N, f'Pool.run: the local playing the role `{k}` was not found')
+    OK, RET = N['ok'], N['ret']
     g = ctx.an.cfg(run_f, pool)
     # ---------------------------------------------------------------- R1
     raises = [n for n in g.nodes if n.kind == 'stmt' and isinstance(n.stmt, ast.Raise) and n.stmt.exc is not None and 'PoolError' in norm(n.stmt.exc) and n.part in (None, 'eval')]
@@ -36,8 +40,8 @@ def run(ctx):
     dom = g.dominators(edge_ok=is_flow)
     good = set()
     for n in g.nodes:
-        if n.kind == 'test' and isinstance(n.stmt, ast.If) and norm(n.stmt.test) in ('not ok', 'ok'):
-            want = 'true' if norm(n.stmt.test) == 'not ok' else 'false'
+        if n.kind == 'test' and isinstance(n.stmt, ast.If) and norm(n.stmt.test) in ('not ' + OK, OK):
+            want = 'true' if norm(n.stmt.test) == 'not ' + OK else 'false'
             for e in n.succ:
                 if e.kind == want:
                     good.add(e.dst.id)
@@ -48,7 +52,7 @@ def run(ctx):
     loops = [n for n in walk_local(run_f.node) if isinstance(n, ast.While) and any(last_attr(c) == 'wait' for c in calls_in(n))]
     ctx.require(loops, 'Pool.run: event loop not found')
     lp = loops[0]
-    oks = [st for st in walk_local(run_f.node) if isinstance(st, ast.Assign) and is_name(st.targets[0], 'ok')]
+    oks = [st for st in walk_local(run_f.node) if isinstance(st, ast.Assign) and is_name(st.targets[0], OK)]
     after = bool(oks) and all(st.lineno > lp.end_lineno for st in oks)
     ctx.check('R1', 'the verdict is computed after the event loop has ended', after, 'Pool.run', 'verdict-before-loop',
               'ok is computed before the event loop finished', where=loc(run_f, oks[0]) if oks else None)
@@ -83,9 +87,9 @@ def run(ctx):
         if v is None and len(pe[0].exc.args) > 1:
             v = pe[0].exc.args[1]
         if isinstance(v, ast.IfExp):
-            ok = is_name(v.body, 'ret') and norm(v.test) == 'return_results' and isinstance(v.orelse, ast.Constant) and v.orelse.value is None
+            ok = is_name(v.body, RET) and norm(v.test) == 'return_results' and isinstance(v.orelse, ast.Constant) and v.orelse.value is None
         elif v is not None:
-            ok = is_name(v, 'ret')
+            ok = is_name(v, RET)
     ctx.check('R2', 'PoolError.partial_results is the result list (None when results are not returned)', ok, 'Pool.run', 'partial-results-value',
               'PoolError does not carry the results gathered so far', where=loc(run_f, pe[0]) if pe else None)
     PE = ctx.prog.cls('PoolError')
@@ -95,9 +99,9 @@ def run(ctx):
     ctx.check('R2', 'PoolError stores partial_results', ok, 'PoolError.__init__', 'partial-results-not-stored', 'PoolError.__init__ does not keep partial_results',
               where=loc(init, init.node) if init else None)
     rets = [st for st in run_f.node.body if isinstance(st, ast.If) and norm(st.test) == 'return_results']
-    ok = bool(rets) and any(isinstance(x, ast.Return) and is_name(x.value, 'ret') for x in rets[-1].body)
+    ok = bool(rets) and any(isinstance(x, ast.Return) and is_name(x.value, RET) for x in rets[-1].body)
     ctx.check('R2', 'the normal return value is the result list', ok, 'Pool.run', 'return-value', 'Pool.run does not return the result list', where=loc(run_f, run_f.node))
-    inits = [st for st in walk_local(run_f.node) if isinstance(st, ast.Assign) and is_name(st.targets[0], 'ret')]
+    inits = [st for st in walk_local(run_f.node) if isinstance(st, ast.Assign) and is_name(st.targets[0], RET)]
     ok = len(inits) == 1 and isinstance(inits[0].value, ast.List) and not inits[0].value.elts
     ctx.check('R2', 'the result list starts empty in every run', ok, 'Pool.run', 'result-list-init', 'the result list is not a fresh empty list per run', where=loc(run_f, run_f.node))
 
@@ -125,7 +129,15 @@ def run(ctx):
         while cur in pm:
             cur = pm[cur]
             if isinstance(cur, ast.If):
-                role = 'if:' + norm(cur.test)
+                tnames = {c.func.id for c in calls_in(cur.test) if isinstance(c.func, ast.Name)}
+                if 'enqueue_fn' in tnames:
+                    role = 'enqueue_fn-refused'
+                elif '_closed' in norm(cur.test):
+                    role = 'worker-closed'
+                elif 'is_alive' in norm(cur.test):
+                    role = 'worker-dead'
+                else:
+                    role = 'if:' + norm(cur.test)
                 break
             if isinstance(cur, ast.ExceptHandler):
                 role = 'except'
